@@ -137,8 +137,11 @@ def cursor_check(prop, tier, seed):
         gen("takechain", "buf", 3, 3, 1, [2, 3], ["chunks_vectored", "copy_to_bytes", "advance", "remaining", "chunk"], [], [0], 4 if q else 100,
             take=3000, leaf_types=["slice"] if q else ["slice", "deque"], wraps=(), root_limit_only=True)
     elif prop == "C10":
-        dm = K.design_mc("C10_design", 1, 2, 1 if q else 2, [0, 1, 3, 9] if q else [0, 1, 3, 9, 17], ["get"], getters, list(range(0, 9)),
-                         leaf_types=["slice", "deque", "chunked"], wraps=(), sample_k=60 if q else 100, seed=seed)
+        # (two operations per program with every getter and width is ~10^8 states with the recorded predictions: the
+        # thorough tier widens the leaf lengths and the leaf types instead)
+        dm = K.design_mc("C10_design", 1, 2, 1, [0, 1, 3, 9] if q else [0, 1, 2, 3, 8, 9, 16, 17], ["get"], getters, list(range(0, 9)),
+                         leaf_types=["slice", "deque", "chunked"], wraps=(), sample_k=60 if q else 400, seed=seed,
+                         timeout=1500 if q else 4000)
         design_progs = dm.pop("design_programs")
         gens.append(dm)
         gen("bfs", "buf", 1, 2, 1, [0, 1, 9, 17], ["get"], getters, list(range(0, 9)), 400 if q else 40, take=4000)
